@@ -18,6 +18,8 @@ type c14Piece struct {
 
 var c14Pieces = []c14Piece{
 	{"{{", "{{"}, {"}}", "}}"}, {"{", "{"}, {"}", "}"}, {"a", "a"}, {" ", " "}, {"x", "x"}, {"tick()", "tick()"}, {"1+1", "1+1"}, {`\n`, "\n"}, {`\"`, `"`},
+	// a lone backslash: part of the text in a raw string (also right before the closing quote); in a quoted string it starts an escape
+	{`\\`, `\`}, {`\`, `\`},
 	// failing expressions whose error text carries the variable's content
 	{"raise(x)", "raise(x)"}, {"x+1", "x+1"},
 }
@@ -91,6 +93,11 @@ func c14Check(c *Ctx, srcBody, valBody string, env int, raw bool) {
 	}
 	if out.err != nil {
 		if out.stage == "parse" {
+			if raw {
+				// a raw string body without a quote character is always a valid literal
+				c.Viol("raw-string-rejected", fmt.Sprintf("%s: a raw string must come back untouched, the parser rejects it: %v", input, out.err), input)
+				return
+			}
 			c.Skip() // not a valid literal
 			return
 		}
@@ -142,15 +149,19 @@ func c14Enumerate(c *Ctx, n int, envs []int, withRaw bool) {
 		}
 		var sb, vb strings.Builder
 		hasQuote := false
+		rawOnly := false
 		for _, i := range idx {
 			sb.WriteString(c14Pieces[i].src)
 			vb.WriteString(c14Pieces[i].val)
 			if c14Pieces[i].src == `\"` || c14Pieces[i].src == `\n` {
 				hasQuote = true
 			}
+			if c14Pieces[i].src == `\` {
+				rawOnly = true // in a quoted string it would fuse with the next piece into an escape
+			}
 		}
 		for _, e := range envs {
-			if c.Mine() {
+			if !rawOnly && c.Mine() {
 				c14Check(c, sb.String(), vb.String(), e, false)
 			}
 			if withRaw && !hasQuote && c.Mine() {
